@@ -721,6 +721,11 @@ func twinOf(r *ref.R, p string) string {
 				name = name[1:]
 			} else if r.Chance(1, 3) {
 				name = "-" + strings.TrimPrefix(name, "-")
+			} else if !hasRule && r.Chance(1, 3) {
+				// a name that differs in white space only is another name (and the pattern a twin like any other). Only for
+				// parameters without a rule: the name of a regexp parameter becomes the name of a capture group, and the
+				// property does not say that every name must be usable there
+				name = ref.Pick(r, []string{name + " ", " " + name, name + "\t"})
 			} else {
 				name = name + "q"
 			}
